@@ -521,6 +521,9 @@ func cmdCheck(args []string) int {
 			for _, p := range ld.pkgs {
 				if f := p.Func(st[1]); f != nil {
 					repl = f
+					if orig != nil {
+						eng.Stub(orig, f)
+					}
 				}
 			}
 			if orig == nil || repl == nil {
